@@ -20,6 +20,7 @@ CONSTANTS
   Edits = FALSE
   Prefix <- MCPrefix
   MaxHavoc = 0
+  KeepRec = FALSE
 INVARIANT NoBad
 INVARIANT Structural
 CHECK_DEADLOCK FALSE
